@@ -108,6 +108,10 @@ def atoms(func_node: ast.AST, target: ast.AST) -> list[tuple[ast.AST, bool]]:
 				for a2, p2 in conjuncts(d, p):
 					add(a2, p2, depth + 1)
 				return
+		if isinstance(a, ast.Compare) and len(a.ops) == 1 and isinstance(a.ops[0], (ast.NotIn, ast.NotEq, ast.IsNot)):
+			flipped = {ast.NotIn: ast.In, ast.NotEq: ast.Eq, ast.IsNot: ast.Is}[type(a.ops[0])]()
+			a = ast.Compare(left=a.left, ops=[flipped], comparators=a.comparators)
+			p = not p
 		out.append((a, p))
 
 	for t, pol in path_conditions(func_node, target):
@@ -188,3 +192,16 @@ def facts_through(func: FuncInfo, target_fn: ast.AST, target: ast.AST, depth: in
 		for c in calls(fn, name):
 			out.extend(facts(fn, c))
 	return out
+
+
+def guarded_through(members: list[FuncInfo], g: FuncInfo, node: ast.AST, try_pred, depth: int = 0) -> bool:
+	"""node (inside g) is enclosed by a try satisfying try_pred in g itself, or every call of g from the other members is (transitively)"""
+	from vlib.flow import enclosing_tries
+	pm = parent_map(g.node)
+	if any(try_pred(t) for t in enclosing_tries(node, pm)):
+		return True
+	if depth > 2:
+		return False
+	sites = [(h, c) for h in members if h is not g for c in walk_no_nested(h.node)
+		if isinstance(c, ast.Call) and ((isinstance(c.func, ast.Attribute) and c.func.attr == g.name) or (isinstance(c.func, ast.Name) and c.func.id == g.name))]
+	return bool(sites) and all(guarded_through(members, h, c, try_pred, depth + 1) for h, c in sites)
